@@ -91,21 +91,47 @@ def doc_examples():
     return doc
 
 
-DOCS = dict(docs.DOCS, rich=doc_rich, with_examples=doc_examples)
+def doc_many_required():
+    """Several required parameters / properties per location: mutations that pick among them must be order-stable."""
+    ok = copy.deepcopy(docs.OK)
+    names = ["alpha", "beta", "gamma", "delta", "epsilon"]
+    return docs.base(
+        {
+            "/m": {
+                "post": {
+                    "operationId": "postM",
+                    "parameters": [{"name": n, "in": "query", "required": True, "schema": {"type": "integer"}} for n in names]
+                    + [{"name": "X-" + n, "in": "header", "required": True, "schema": {"type": "integer"}} for n in names[:3]],
+                    "requestBody": {
+                        "required": True,
+                        "content": {"application/json": {"schema": {"type": "object", "required": names, "properties": {n: {"type": "string", "minLength": 1} for n in names}, "additionalProperties": False}}},
+                    },
+                    "responses": ok,
+                }
+            }
+        }
+    )
+
+
+DOCS = dict(docs.DOCS, rich=doc_rich, with_examples=doc_examples, many_required=doc_many_required)
 
 
 def gen_groups(tier, seed):
     rng = random.Random(f"{seed}:C13")
     groups = []
     phase_sets = [["examples"], ["coverage"], ["fuzzing"], ["stateful"], ["examples", "coverage", "fuzzing", "stateful"]]
-    for doc in ("rich", "with_examples", "two_linked", "four", "multifile"):
+    # seed 0 is a seed like any other
+    for doc in ("four", "many_required"):
+        for modes in (["positive"], ["negative"]):
+            groups.append({"doc": doc, "cfg": {"phases": ["fuzzing"], "max_examples": 6, "modes": modes}, "seed": 0})
+    for doc in ("rich", "with_examples", "two_linked", "four", "multifile", "many_required"):
         for phases in phase_sets:
             if phases == ["stateful"] and doc not in ("two_linked",):
                 continue
             if phases == ["examples"] and doc not in ("with_examples", "rich"):
                 continue
             for modes in (["positive"], ["negative"], ["positive", "negative"]):
-                if modes != ["positive"] and rng.random() < (0.5 if tier == "quick" else 0.0):
+                if modes != ["positive"] and doc != "many_required" and rng.random() < (0.5 if tier == "quick" else 0.0):
                     continue
                 groups.append({"doc": doc, "cfg": {"phases": phases, "max_examples": 6, "modes": modes}, "seed": rng.randrange(1, 10**6)})
     if tier == "thorough":
